@@ -36,6 +36,9 @@ def run(c):
             cases.append(dict(k="dec", entry=fam_entry[t["family"]], inp=g["inp"]))
             cases.append(dict(k="dec", entry="body", m=g["m"], inp=g["inp"]))
         c.count_distinct((g["m"], tuple(g["inp"][len(header(g["m"])):])) if g["n"] >= 1 else ("hdr", g["m"]))
+        if rng.random() < 0.1:
+            for v in hdr_variants(g["m"], g["inp"]):
+                cases.append(dict(k="dec", entry="plain", inp=v))
     acc = [g for g in gen if g["ok"] and not g["unk"]]
     if thorough: acc = rng.sample(acc, min(len(acc), 12000))
     seenp = set()
@@ -93,8 +96,7 @@ def run(c):
                 dict(case=cases[idx], observed=e, how="harness codec run <case as ndjson> out journal; validate with Trace_C04"))
 
     def confirm(idx, t):
-        e0 = json.loads(events[idx])
-        return confirm_case(c, drv, cases[idx], lambda e: e == e0 or {k: v for k, v in e.items() if k != "alloc"} == {k: v for k, v in e0.items() if k != "alloc"})
+        return confirm_by_tlc(c, drv, cases[idx], "Trace_C04", t[2], context=cases[max(0, idx - 2):idx])
     c.triage(mism, classify, confirm)
     c.cov["notes_unknown_iei"] = sum(1 for _, t in mism if t[0] == "NOTE")
     c.cov["slots_pinned"] = "%d of 357 table slots carried a value in at least one in-grammar generated message" % len(slots_pinned)
